@@ -3,6 +3,7 @@
 package main
 
 import (
+	"time"
 	"context"
 	"errors"
 	"sort"
@@ -31,8 +32,20 @@ type VStore struct {
 	// one-shot pause point: the next Write whose key contains pauseKey signals `paused` and waits for `resume`
 	// (realises a chosen interleaving of a read-modify-write with another goroutine's step)
 	pauseKey string
+	pauseReadKey string
 	paused   chan struct{}
 	resume   chan struct{}
+}
+
+// ArmPauseRead: like ArmPause, for the next Read whose key contains keyPart (the reader is held AFTER it got the
+// data, i.e. between its read and whatever it does next).
+func (s *VStore) ArmPauseRead(keyPart string) (chan struct{}, chan struct{}) {
+	s.mu.Lock()
+	defer s.mu.Unlock()
+	s.pauseReadKey = keyPart
+	s.paused = make(chan struct{})
+	s.resume = make(chan struct{})
+	return s.paused, s.resume
 }
 
 // ArmPause arms the one-shot pause point and returns (paused, resume).
@@ -47,6 +60,7 @@ func (s *VStore) ArmPause(keyPart string) (chan struct{}, chan struct{}) {
 
 func (s *VStore) DisarmPause() {
 	s.mu.Lock()
+	s.pauseReadKey = ""
 	s.pauseKey = ""
 	s.mu.Unlock()
 }
@@ -133,6 +147,17 @@ func (s *VStore) Read(ctx context.Context, key string) ([]byte, error) {
 	}
 	c := make([]byte, len(b))
 	copy(c, b)
+	if s.pauseReadKey != "" && strings.Contains(key, s.pauseReadKey) {
+		paused, resume := s.paused, s.resume
+		s.pauseReadKey = ""
+		s.mu.Unlock()
+		close(paused)
+		select {
+		case <-resume:
+		case <-time.After(5 * time.Second):
+		}
+		s.mu.Lock()
+	}
 	return c, nil
 }
 
